@@ -290,14 +290,15 @@ Definition step_sparse (S : sparse V) (o : op) : option (sparse V * outv) :=
           | Some (s', asg) => match sp_set S s' (sort_dedupe asg) false with
                               | Some S' => Some (S', ([], [])) | None => None end
           | None => None end
-      | KRegion _, RScalar _ => (* khatrirao enumeration: first mode slowest *)
+      | KRegion _, RScalar _ => (* khatrirao enumeration: first mode slowest; a position addressed twice (an index repeated
+                                   inside a key list) is one position *)
           match resolve_set cartC (sshape S) k r with
-          | Some (s', asg) => match sp_set S s' asg false with
+          | Some (s', asg) => match sp_set S s' (dedupe_last asg) false with
                               | Some S' => Some (S', ([], [])) | None => None end
           | None => None end
-      | KRegion _, RValues _ => (* tensor right-hand side *)
+      | KRegion _, RValues _ => (* tensor right-hand side; a position addressed twice keeps its LAST value (as numpy does) *)
           match resolve_set cartF (sshape S) k r with
-          | Some (s', asg) => match sp_set S s' asg true with
+          | Some (s', asg) => match sp_set S s' (dedupe_last asg) true with
                               | Some S' => Some (S', ([], [])) | None => None end
           | None => None end
       | _, _ => None           (* linear assignment is not supported by sptensor (documented) *)
